@@ -30,7 +30,7 @@ TraceNext ==
             /\ list' = ev.list /\ rep' = ev.rep /\ holders' = Range(ev.holders)
             /\ ran' = {} /\ round' = 0 /\ last' = NoLast
        [] ev.ev = "check" ->
-            /\ Check(ev.node, Range(ev.down))
+            /\ Check(ev.node, Range(ev.down), Range(ev.refuse))
             /\ last'.del = ev.del
             /\ SameTasks(ev, last')
             /\ holders' = Range(ev.holders)
